@@ -541,7 +541,7 @@ def sampled_case(draw):
     return case
 
 
-PARAMS = {"quick": 400, "thorough": 15000}
+PARAMS = {"quick": 1200, "thorough": 20000}
 
 
 def shard(ctx):
